@@ -5,7 +5,7 @@ CONSTANTS
   Delegators = {"D1"}
   Specs = {"S1"}
   Plans = {"PL1"}
-  MaxOps = 3
+  MaxOps = 2
   GenHist = FALSE
   FixRenew = TRUE
   Bias = "all"
